@@ -445,6 +445,32 @@ pub fn parse<'a>(
     })))
 }
 
+/// Checks whether `input` holds a complete program message.
+///
+/// The message is complete if parsing it unit by unit reaches a message
+/// terminator (or a faulty unit) before the input ends. It is not complete
+/// if the input ends inside a unit, e.g. when a line feed found in `input`
+/// belongs to a quoted string or to an arbitrary data block.
+pub fn is_complete(root: &'static Node, mut input: &[u8]) -> bool {
+    let mut header = root;
+    loop {
+        match parse(root, header, input) {
+            Err(ParseError::Incomplete) => return false,
+            Err(_) => return true,
+            Ok((_, None)) => return true,
+            Ok((rest, Some(call))) => {
+                if call.terminated {
+                    return true;
+                }
+                if let Some(call_header) = call.header {
+                    header = call_header;
+                }
+                input = rest;
+            }
+        }
+    }
+}
+
 #[cfg(test)]
 mod tests {
     use super::*;
